@@ -1044,7 +1044,7 @@ class TreeRun:
             name += "_"
         depths = np.asarray(sorted(op["depths"]), dtype=float) / 2.0
         values = np.asarray((list(op["vals"]) * 2)[: len(depths)], dtype=float)
-        self.parents.add(uid)
+        self.targets.add(uid)
         self.call("Drillhole", ent.add_data, {name: {"depth": depths, "values": values}})
         parent_uid = wd.nodes[uid]["parent"]
         wd.nodes[uid] = snap_entity(ent)
